@@ -120,17 +120,24 @@ theorem elabField_equiv (O : Oracles) (f₁ f₂ : Bool) {a b : FieldSp} (h : Fi
 /-- Class level: any mix of equivalent spellings across the fields of one class gives the same class
     statement outcome. -/
 theorem elabClass_equiv (O : Oracles) {c₁ c₂ : ClassSp} (h : ClassSame c₁.fields c₂.fields)
+    (hr : c₁.required = c₂.required)
     (h₁ : classSupported O tm c₁ = true) (h₂ : classSupported O tm c₂ = true) :
     elabClass O tm c₁ = elabClass O tm c₂ := by
-  simp only [elabClass, elabFields_same O c₁.scope c₂.scope c₁.future c₂.future h h₁ h₂]
+  simp only [elabClass, elabFields_same O c₁.scope c₂.scope c₁.future c₂.future h h₁ h₂, hr]
+  cases he : elabFields O tm c₂.scope c₂.future c₂.fields with
+  | error e => rfl
+  | ok rs =>
+    simp only [bindE_ok]
+    exact finishClass_opt_irrelevant _ _ _ rs (elabFields_allField O c₂.scope c₂.future c₂.fields rs h₂ he)
 
 /-- Corollary: same field set (with the same Field per name), same `_required`, same defaults. -/
 theorem same_fields_and_required (O : Oracles) {c₁ c₂ : ClassSp} (h : ClassSame c₁.fields c₂.fields)
+    (hr : c₁.required = c₂.required)
     (h₁ : classSupported O tm c₁ = true) (h₂ : classSupported O tm c₂ = true)
     {o₁ o₂ : ClassOpts} {fs₁ fs₂ : List (String × FieldDecl)} {ds₁ ds₂ : List (String × PyVal)}
     (e₁ : elabClass O tm c₁ = .ok (.struct o₁ fs₁ ds₁)) (e₂ : elabClass O tm c₂ = .ok (.struct o₂ fs₂ ds₂)) :
     fs₁ = fs₂ ∧ o₁.required = o₂.required ∧ ds₁ = ds₂ := by
-  rw [elabClass_equiv O h h₁ h₂, e₂] at e₁
+  rw [elabClass_equiv O h hr h₁ h₂, e₂] at e₁
   injection e₁ with e
   injection e with eo ef ed
   subst eo ef ed
@@ -145,9 +152,10 @@ def classBehaviour (O : Oracles) (c : ClassSp) (kw : List (String × PyVal)) : R
 /-- Corollary: equivalent class bodies accept, reject (same exception class) and normalise every
     keyword-argument list identically. -/
 theorem same_behaviour (O : Oracles) {c₁ c₂ : ClassSp} (h : ClassSame c₁.fields c₂.fields)
+    (hr : c₁.required = c₂.required)
     (h₁ : classSupported O tm c₁ = true) (h₂ : classSupported O tm c₂ = true)
     (kw : List (String × PyVal)) : classBehaviour O c₁ kw = classBehaviour O c₂ kw := by
-  simp only [classBehaviour, elabClass_equiv O h h₁ h₂]
+  simp only [classBehaviour, elabClass_equiv O h hr h₁ h₂]
 
 /-! ### "behaviourally identical" as theorems: every operation of the other models is a function of the
     class declaration, so equal declarations give equal results (one congruence theorem per operation) -/
@@ -159,9 +167,10 @@ def observe {α : Type} (O : Oracles) (c : ClassSp) (obs : FieldDecl → R α) :
 /-- Congruence, once and for all: equivalent class bodies agree on EVERY observation that is a function of the
     class the statement creates (constructor, serializer, deserializer, schema export, …). -/
 theorem same_observation {α : Type} (O : Oracles) {c₁ c₂ : ClassSp} (h : ClassSame c₁.fields c₂.fields)
+    (hr : c₁.required = c₂.required)
     (h₁ : classSupported O tm c₁ = true) (h₂ : classSupported O tm c₂ = true) (obs : FieldDecl → R α) :
     observe O c₁ obs = observe O c₂ obs := by
-  simp only [observe, elabClass_equiv O h h₁ h₂]
+  simp only [observe, elabClass_equiv O h hr h₁ h₂]
 
 /-- `Serializer(K(**kw)).serialize()` (`Sem/Serde.serialize` after `Sem/Validate.construct`) -/
 def classSerialize (O : Oracles) (c : ClassSp) (kw : List (String × PyVal)) : R PyVal :=
@@ -177,21 +186,24 @@ def classSchema (O : Oracles) (c : ClassSp) : R (PyVal × Sch.Defs) :=
 
 /-- Equivalent class bodies serialize every constructed instance identically. -/
 theorem same_serialize (O : Oracles) {c₁ c₂ : ClassSp} (h : ClassSame c₁.fields c₂.fields)
+    (hr : c₁.required = c₂.required)
     (h₁ : classSupported O tm c₁ = true) (h₂ : classSupported O tm c₂ = true)
     (kw : List (String × PyVal)) : classSerialize O c₁ kw = classSerialize O c₂ kw :=
-  same_observation O h h₁ h₂ _
+  same_observation O h hr h₁ h₂ _
 
 /-- Equivalent class bodies deserialize every document identically (same instance or same exception class). -/
 theorem same_deserialize (O : Oracles) (opts : DeserOpts) {c₁ c₂ : ClassSp} (h : ClassSame c₁.fields c₂.fields)
+    (hr : c₁.required = c₂.required)
     (h₁ : classSupported O tm c₁ = true) (h₂ : classSupported O tm c₂ = true)
     (doc : PyVal) : classDeserialize O opts c₁ doc = classDeserialize O opts c₂ doc :=
-  same_observation O h h₁ h₂ _
+  same_observation O h hr h₁ h₂ _
 
 /-- Equivalent class bodies export the same JSON schema and definitions. -/
 theorem same_schema (O : Oracles) {c₁ c₂ : ClassSp} (h : ClassSame c₁.fields c₂.fields)
+    (hr : c₁.required = c₂.required)
     (h₁ : classSupported O tm c₁ = true) (h₂ : classSupported O tm c₂ = true) :
     classSchema O c₁ = classSchema O c₂ :=
-  same_observation O h h₁ h₂ _
+  same_observation O h hr h₁ h₂ _
 
 /-! ### the full statement, and what is proved of it -/
 
@@ -202,7 +214,7 @@ def fieldNames (r : R FieldDecl) : Option (List String × List String) :=
 
 /-- C13 at full strength, over the documented spellings -/
 def C13_statement : Prop :=
-  ∀ (O : Oracles) (c₁ c₂ : ClassSp), ClassSame c₁.fields c₂.fields →
+  ∀ (O : Oracles) (c₁ c₂ : ClassSp), ClassSame c₁.fields c₂.fields → c₁.required = c₂.required →
     c₁.fields.all documentedField = true → c₂.fields.all documentedField = true →
     fieldNames (elabClass O tm c₁) = fieldNames (elabClass O tm c₂)
     ∧ ∀ kw, classBehaviour O c₁ kw = classBehaviour O c₂ kw
@@ -210,10 +222,11 @@ def C13_statement : Prop :=
 /-- What holds: the statement restricted to the supported region (`classSupported` excludes exactly
     the known-finding regions and typing's own flattening / de-duplication of unions). -/
 theorem statement_partial (O : Oracles) (c₁ c₂ : ClassSp) (h : ClassSame c₁.fields c₂.fields)
+    (hr : c₁.required = c₂.required)
     (h₁ : classSupported O tm c₁ = true) (h₂ : classSupported O tm c₂ = true) :
     fieldNames (elabClass O tm c₁) = fieldNames (elabClass O tm c₂)
     ∧ ∀ kw, classBehaviour O c₁ kw = classBehaviour O c₂ kw :=
-  ⟨by rw [elabClass_equiv O h h₁ h₂], same_behaviour O h h₁ h₂⟩
+  ⟨by rw [elabClass_equiv O h hr h₁ h₂], same_behaviour O h hr h₁ h₂⟩
 
 /-! ### former findings (now theorems) and counterexamples for the open ones, checked by the kernel -/
 
@@ -313,7 +326,7 @@ theorem statement_false : ¬ C13_statement := by
   intro h
   have := (h noRe { future := false, fields := [annF fStr (.eq (.int 0) 1)] }
     { future := false, fields := [annF (.finst .str) (.kw (.int 0) 1)] }
-    (ClassSame.cons counterexample_falsy_default_kw.1 ClassSame.nil) rfl rfl).1
+    (ClassSame.cons counterexample_falsy_default_kw.1 ClassSame.nil) rfl rfl rfl).1
   revert this
   decide
 
@@ -538,6 +551,37 @@ theorem union_duplicate_collapses (x : Sp) (hs : supported tm x = true) (hu : un
   obtain ⟨o, hev, g⟩ := ev_good x hs
   have hm := unionMembers_of_gtli g.gt (g.nu hu)
   simp [elaborateAnn, ev, hev, hm, mkUnion, dedupObj, he o hev]
+
+/-! ### `_required` written out in the class body -/
+
+/-- Writing `_required = [...]` with exactly the names typedpy computes by itself (fields without default that are
+    neither listed in `_optional` nor annotated with a union that has a None member) gives the same class as not
+    writing it - for every class body whose fields elaborate, whatever their spellings. (`conflictOpt`: typedpy
+    refuses a name that is both optional and listed, "optional cannot override prior required"; it cannot happen
+    when the field names are distinct.) -/
+theorem explicit_required_equiv (O : Oracles) (c : ClassSp) (rs : List (String × FieldRes))
+    (h : elabFields O tm c.scope c.future c.fields = .ok rs) (hc : conflictOpt (requiredOf rs) rs = false)
+    (hd : conflictDropped (requiredOf rs) (optionalNames c.fields) rs = false) :
+    elabClass O tm { c with required := some (requiredOf rs) } = elabClass O tm { c with required := none } := by
+  simp only [elabClass, h, bindE_ok, finishClass_explicit _ rs hc hd]
+
+/-- `a: int; b: Optional[str]; c: int = 3`: `_required = ['a']` is the class typedpy computes; `_required = []` makes
+    `a` optional as well; a defaulted name listed in `_required` is dropped from it; `_required = ['a', 'b']` is
+    refused (ValueError: `b` is optional through its annotation), whereas `b: AnyOf[String, None]` may be listed. -/
+theorem explicit_required_example :
+    let fa : FieldSp := { name := "a", mode := .ann, ty := .builtin .int }
+    let fb : FieldSp := { name := "b", mode := .ann, ty := .optional (.builtin .str) }
+    let fb' : FieldSp := { name := "b", mode := .ann, ty := .anyOf fStr .noneLit }
+    let fc : FieldSp := { name := "c", mode := .ann, ty := .builtin .int, dflt := .eq (.int 3) 1 }
+    let K (req : Option (List String)) (b : FieldSp) : ClassSp := { future := false, fields := [fa, b, fc], required := req }
+    fieldNames (elabClass noRe tm (K none fb)) = some (["a", "b", "c"], ["a"])
+    ∧ elabClass noRe tm (K (some ["a"]) fb) = elabClass noRe tm (K none fb)
+    ∧ fieldNames (elabClass noRe tm (K (some []) fb)) = some (["a", "b", "c"], [])
+    ∧ fieldNames (elabClass noRe tm (K (some ["c", "a"]) fb)) = some (["a", "b", "c"], ["a"])
+    ∧ elabClass noRe tm (K (some ["a", "b"]) fb) = .error .valueErr
+    ∧ fieldNames (elabClass noRe tm (K (some ["a", "b"]) fb')) = some (["a", "b", "c"], ["a", "b"])
+    ∧ fieldNames (elabClass noRe tm (K none fb')) = some (["a", "b", "c"], ["a", "b"]) :=
+  ⟨rfl, rfl, rfl, rfl, rfl, rfl, rfl⟩
 
 /-! ### Structure classes as field types, two-element tuples -/
 
